@@ -210,3 +210,48 @@ Lemma w_stuck_pair :
   (exists th, nth_error (xths s) 0 = Some th /\ xprog th = [XSelect [CRecv 0; CRecv 1]] /\ xtpc th = STry2W 1) /\
   (exists th, nth_error (xths s) 2 = Some th /\ xprog th = [XPlain 0 (OSend 12)] /\ xtpc th = XSendW).
 Proof. vm_compute. repeat split. - intros th [<-|[<-|[<-|[]]]]; reflexivity. - eexists; repeat split. - eexists; repeat split. Qed.
+
+(* the same facts in the form Props.v states them (closed by vm_compute here, so that Props.v needs no conversion) *)
+Lemma w_default_ex :
+  exists caps progs sc, let s := x_run sc (x_init caps progs) in
+    progs = [[XTrySelect [CRecv 0; CSend 0 12%N]]; [XPlain 0 (OSend 13%N)]] /\ caps = [1]%nat /\
+    map xout (xths s) = [[XDefault]; [XR (RSend true)]] /\
+    map xchan_obs (xchs s) = [(0, 1, 0, 0, false, 0)]%nat.
+Proof.
+  exists [1]%nat, [[XTrySelect [CRecv 0; CSend 0 12%N]]; [XPlain 0 (OSend 13%N)]], [0;1;1;0]%nat.
+  vm_compute. repeat split.
+Qed.
+
+Lemma w_mirrored_ex :
+  exists caps progs sc, let s := x_run sc (x_init caps progs) in
+    progs = [[XSelect [CRecv 0; CSend 0 11%N]]; [XSelect [CSend 0 12%N; CRecv 0]]] /\
+    (forall th, In th (xths s) -> x_enabled th = false) /\
+    map xtpc (xths s) = [SWaitW; SWaitW] /\ map xout (xths s) = [[]; []].
+Proof.
+  exists [0]%nat, [[XSelect [CRecv 0; CSend 0 11%N]]; [XSelect [CSend 0 12%N; CRecv 0]]],
+    [0;0;0;0;0;0;0;0;1;0;0;0;0;1;1;1;1;1;1;1]%nat.
+  vm_compute. repeat split. intros th [<-|[<-|[]]]; reflexivity.
+Qed.
+
+Lemma w_stuck_pair_ex :
+  exists caps progs sc, let s := x_run sc (x_init caps progs) in
+    (forall th, In th (xths s) -> x_enabled th = false) /\
+    (exists th, nth_error (xths s) 0 = Some th /\ xprog th = [XSelect [CRecv 0; CRecv 1]] /\ xtpc th = STry2W 1) /\
+    (exists th, nth_error (xths s) 2 = Some th /\ xprog th = [XPlain 0 (OSend 12%N)] /\ xtpc th = XSendW).
+Proof.
+  exists [0;0]%nat, [[XSelect [CRecv 0; CRecv 1]]; [XPlain 1 ORecv]; [XSelect [CSend 1 11%N; CRecv 0]; XPlain 0 (OSend 12%N)]],
+    [0;1;2;2;1;0;2;0;0;2;1;0;0;2;0;2;0;2;0;2]%nat.
+  vm_compute. repeat split. - intros th [<-|[<-|[<-|[]]]]; reflexivity. - eexists; repeat split. - eexists; repeat split.
+Qed.
+
+Lemma w_tryselect_blocks_ex :
+  exists caps progs sc, let s := x_run sc (x_init caps progs) in
+    (forall th, In th (xths s) -> x_enabled th = false) /\
+    exists th, nth_error (xths s) 1 = Some th /\ xprog th = [XTrySelect [CRecv 0; CSend 0 14%N]] /\
+               xtpc th = TTry2W 0 /\ xpark th = Some (OnChan 0) /\ xslots th = [0%N; 0%N].
+Proof.
+  exists [0;0]%nat, [[XSelect [CSend 1 11%N; CSend 0 12%N]; XPlain 1 (OSend 13%N)]; [XTrySelect [CRecv 0; CSend 0 14%N]]; [XPlain 0 ORecv]],
+    [0;2;2;0;0;0;2;0;1;1;0;0;0;1]%nat.
+  vm_compute. repeat split. - intros th [<-|[<-|[<-|[]]]]; reflexivity. - eexists; repeat split.
+Qed.
+
